@@ -148,12 +148,17 @@ ChangeForeign(v) == /\ alive /\ pc = 0 /\ v # fval
 (* loadParameters(): usable stored entries replace the values (and are written to the hardware), *)
 (* everything else stays; foreign entries are ignored                                            *)
 Reloaded(c, v) == [p \in Params |-> IF FileEnt(c)[p] \in Vals THEN FileEnt(c)[p] ELSE v[p]]
-Reload == /\ alive /\ pc = 0 /\ wd = NoSnap
+(* It may be called at any time, also right after start-up while configured values are still waiting to be   *)
+(* written (wd): everything pending is written as well.  This is why the start-up save matters: a file left   *)
+(* over from the previous run would otherwise be reloaded over the configured values (ReloadHarmless)          *)
+ReloadHarmless(E, v) == \A p \in DOMAIN v : E[p] \in {NoVal, Bad} \/ E[p] = v[p]
+Reload == /\ alive /\ pc = 0
           /\ val' = Reloaded(disk.target, val)
-          /\ err' = err \ {p \in Params : FileEnt(disk.target)[p] \in Vals}
+          /\ err' = (err \ {p \in Params : FileEnt(disk.target)[p] \in Vals}) \ {p \in kind.hw : wd[p] # NoVal}
+          /\ wd' = NoSnap
           /\ believed' = BelievedAfterLoad(disk.target)
           /\ tampered' = FALSE
-          /\ UNCHANGED <<disk, alive, kind, wd, pc, sv, init, fval>>
+          /\ UNCHANGED <<disk, alive, kind, pc, sv, init, fval>>
 
 (* factory_reset: back to the values of configuration / declaration *)
 FactoryReset == /\ alive /\ pc = 0 /\ wd = NoSnap
@@ -246,6 +251,9 @@ Tolerant == [][\A cc \in CfgPairs : Start(cc[1], cc[2]) =>
 (* entries of the file that do not belong to a persistent parameter never reach the module *)
 ForeignUntouched == [][(\E cc \in CfgPairs : Start(cc[1], cc[2])) => fval' = Default]_vars
                     /\ [][Reload => fval' = fval]_vars
+(* once the start-up save is through, the stored file agrees with the values just established: reloading it *)
+(* (before anything changed) cannot bring back stale values of the previous run over configured ones        *)
+StartupFileAgrees == [][(FsStep /\ pc = NOps) => ReloadHarmless(FileEnt(disk'.target), val')]_vars
 (* reload keeps what the file cannot give; factory reset forgets the file *)
 ReloadKeeps == [][Reload => \A p \in Params : FileEnt(disk.target)[p] \notin Vals => val'[p] = val[p]]_vars
 =============================================================================
